@@ -36,12 +36,12 @@ Inductive wpc :=
 | PExit.
 
 Record wk := mkwk { pc : wpc; ts : tst; start : Z; conn : Z; eintr : bool; failed : bool; reported : bool }.
-Definition wk0 : wk := mkwk PNone TNew 0 0 false false false.
+Definition wk0 : wk := mkwk PNone TNew (-1) (-1) false false false.   (* _thd_init: start = connect = (time_t) -1 *)
 
 Inductive dpc := DLock | DCheck | DWait | DWoken | DUnlock | FLock | FCheck | FWait | FWoken | DDone | DExited.
 Inductive wdpc := WdSleep (until : Z) | WdKilling (i : nat).
 Inductive sgn := SInt | STstp.
-Inductive spc := SIdle | SAbortL | SAbortH (k : nat) | SAbortU | SListL | SListH | SCancelL | SCancelH | SGone.
+Inductive spc := SIdle | SAbortL | SAbortH (k : nat) | SAbortU | SListM | SListL | SListH | SCancelL | SCancelH | SGone.
 Inductive own := Free | ByD | ByW (i : nat) | ByS.
 
 Record cfg := mkcfg { ntgt : nat; f : Z; tconn : Z; tcmd : Z; batch : bool; behs : list beh }.
@@ -61,7 +61,7 @@ Inductive ev :=
 (* watchdog *)
 | EWdWake | EWdKill (i : nat)
 (* signals thread *)
-| ESigArrive (sg : sgn) | ESigTake | ELock1S | ERSigS (i : nat) | EUnlock1S | EExitS | ELock0S | EUnlock0S | ERaise
+| ESigArrive (sg : sgn) | ESigTake | ESigMark | ELock1S | ERSigS (i : nat) | EUnlock1S | EExitS | ELock0S | EUnlock0S | ERaise
 (* environment *)
 | ETick | ESpur.
 
@@ -89,6 +89,8 @@ Definition init (t0 : Z) : gst :=
 Definition killable (s : gst) (w : wk) : bool :=
   match ts w with
   | TRcmd => (0 <? tconn c) && (start w + tconn c <? now s)
+  | TCanceled =>   (* cancelled while connecting: still inside connect(); never started: start = -1 *)
+    (0 <? tconn c) && negb (start w =? -1) && (start w + tconn c <? now s)
   | TReading => (0 <? tcmd c) && (conn w + tcmd c <? now s)
   | _ => false
   end.
@@ -338,13 +340,18 @@ Definition step (s : gst) (e : ev) : option gst :=
     | SIdle, Some SInt =>
       if batch c then Some (mkg (idx s) (tc s) (m0 s) (m1 s) (d s) (ws s) (now s) (wd s) SAbortL None (last s) (exited s))
       else if INTR <? now s - last s
-      then Some (mkg (idx s) (tc s) (m0 s) (m1 s) (d s) (ws s) (now s) (wd s) SListL None (now s) (exited s))
+      then Some (mkg (idx s) (tc s) (m0 s) (m1 s) (d s) (ws s) (now s) (wd s) SListM None (last s) (exited s))
       else Some (mkg (idx s) (tc s) (m0 s) (m1 s) (d s) (ws s) (now s) (wd s) SAbortL None (last s) (exited s))
     | SIdle, Some STstp =>
       if INTR <? now s - last s
       then None  (* raise(SIGSTOP): see ERaise *)
       else Some (mkg (idx s) (tc s) (m0 s) (m1 s) (d s) (ws s) (now s) (wd s) SCancelL None (last s) (exited s))
     | _, _ => None
+    end
+  | ESigMark =>   (* the two notices are out: *last_intrp = time(NULL) *)
+    match sp s with
+    | SListM => Some (mkg (idx s) (tc s) (m0 s) (m1 s) (d s) (ws s) (now s) (wd s) SListL (pend s) (now s) (exited s))
+    | _ => None
     end
   | ERaise =>
     match sp s, pend s with
@@ -422,6 +429,8 @@ Definition calm (s : gst) : bool :=
 Definition hang_due (i : nat) (w : wk) : option Z :=
   match pc w, behof i, ts w with
   | PInConn, BHangConn, TRcmd => if negb (eintr w) && (0 <? tconn c) then Some (start w + tconn c) else None
+  | PInConn, BHangConn, TCanceled =>   (* cancelled by ^C ^Z while connecting: the connect timeout still applies *)
+    if negb (eintr w) && (0 <? tconn c) && negb (start w =? -1) then Some (start w + tconn c) else None
   | PPoll, BHangRead, TReading => if negb (eintr w) && (0 <? tcmd c) then Some (conn w + tcmd c) else None
   | _, _, _ => None
   end.
